@@ -434,3 +434,34 @@ pub fn effective_kind(kind: CodeKind, tag: u32) -> CodeKind {
         k => k,
     }
 }
+
+/// Adversarial address generator (plugged in through WasmKeeper::with_address_generator in a share
+/// of the runs): instantiations come in groups of three that share one canonical address — the
+/// first gets the lower-case bech32 string, the second the very same string in upper case (a
+/// different address that differs only in letter case), the third (for odd code ids) the first
+/// one's address again, which must be rejected as a duplicate. Salted addresses stay the default.
+pub struct AdvAddrGen;
+
+pub fn adv_address(api: &dyn cosmwasm_std::Api, code_id: u64, instance_id: u64) -> AnyResult<cosmwasm_std::Addr> {
+    use sha2::{Digest, Sha256};
+    let group = instance_id / 3;
+    let canon = |tag: &str, n: u64| -> Vec<u8> { Sha256::digest(format!("{}-{}", tag, n).as_bytes()).to_vec() };
+    let base = api.addr_humanize(&cosmwasm_std::CanonicalAddr::from(canon("adversarial", group)))?;
+    Ok(match instance_id % 3 {
+        0 => base,
+        1 => cosmwasm_std::Addr::unchecked(base.as_str().to_uppercase()),
+        _ => {
+            if code_id % 2 == 1 {
+                base
+            } else {
+                api.addr_humanize(&cosmwasm_std::CanonicalAddr::from(canon("fresh", instance_id)))?
+            }
+        }
+    })
+}
+
+impl cw_multi_test::AddressGenerator for AdvAddrGen {
+    fn contract_address(&self, api: &dyn cosmwasm_std::Api, _storage: &mut dyn Storage, code_id: u64, instance_id: u64) -> AnyResult<cosmwasm_std::Addr> {
+        adv_address(api, code_id, instance_id)
+    }
+}
